@@ -199,7 +199,10 @@ class Gen:
         for i in range(r.randrange(1, 5)):
             k = r.random()
             if k < 0.4:
-                parts.append(r.choice(["a", "=", " ", "foo(", ")", "+", "'q%sq'" % mark, '"i%si"' % mark, "1"]))
+                parts.append(r.choice(["a", "=", " ", "foo(", ")", "+", "'q%sq'" % mark, '"i%si"' % mark, "1",
+                                       # operator spellings that only raw SQL can write (Postgres #>> / #> / ::, ||, @>):
+                                       # `#` is an operator character there, not the start of a comment
+                                       " #>> ", " #> ", "::text", " || ", " @> ", " # "]))
             elif k < 0.8 and n > 0:
                 ph = mark + (str(r.randrange(1, n + 1)) if self.b == "pg" else "")
                 parts.append((" " + ph + " ") if self.no_marks else ph)
